@@ -394,9 +394,78 @@ func (x *EvalCtx) evalCall(e *Expr) TV {
 		inner := Select(c.get(x.st, heap), slArr(s.T), ArraySort(SInt, es))
 		set := c.elemsOf(inner, slOff(s.T), slLen(s.T), es)
 		return TV{Select(set, v.T, SBool), tyBool}
+	case "content":
+		a := x.eval(e.Args[0])
+		if a.T.Sort != SSlice {
+			efail("content of non-slice")
+		}
+		return TV{c.bytesContent(x.st, a.T), tyString}
+	case "jsonEnc":
+		a := x.eval(e.Args[0])
+		if a.T.Sort != SAny {
+			efail("jsonEnc of non-interface value")
+		}
+		return TV{c.jsonEnc(a.T), tyString}
+	case "fmtTime":
+		a := x.eval(e.Args[0])
+		return TV{c.fmtTime(a.T), tyString}
+	case "parseOK":
+		a := x.eval(e.Args[0])
+		c.declareFun("parseTimeOK", []Sort{SInt}, SBool)
+		return TV{Term{app("parseTimeOK", a.T), SBool}, tyBool}
+	case "parseVal":
+		a := x.eval(e.Args[0])
+		c.declareFun("parseTimeVal", []Sort{SInt}, SInt)
+		tt, _ := c.eng.resolveType("time.Time")
+		return TV{Term{app("parseTimeVal", a.T), SInt}, tt}
+	case "trimSpace":
+		a := x.eval(e.Args[0])
+		return TV{c.trimSpace(a.T), tyString}
+	case "foldl8":
+		return x.evalFold(e)
+	case "cap":
+		a := x.eval(e.Args[0])
+		if a.T.Sort != SSlice {
+			efail("cap of non-slice")
+		}
+		return TV{slCap(a.T), tyInt}
+	case "sameArray":
+		a := x.eval(e.Args[0])
+		b := x.eval(e.Args[1])
+		if a.T.Sort != SSlice || b.T.Sort != SSlice {
+			efail("sameArray of non-slices")
+		}
+		return TV{And(Eq(slArr(a.T), slArr(b.T)), Eq(slOff(a.T), slOff(b.T))), tyBool}
+	case "prefixHas":
+		// prefixHas(s, n, x): x is among the first n elements of s
+		s := x.eval(e.Args[0])
+		nn := x.eval(e.Args[1])
+		v := x.eval(e.Args[2])
+		sl, ok := s.Ty.Underlying().(*types.Slice)
+		if !ok {
+			efail("prefixHas on non-slice")
+		}
+		heap, es := c.elemHeap(sl.Elem())
+		inner := Select(c.get(x.st, heap), slArr(s.T), ArraySort(SInt, es))
+		set := c.elemsOf(inner, slOff(s.T), nn.T, es)
+		return TV{Select(set, v.T, SBool), tyBool}
 	case "unbox":
 		// unbox(T, anyvalue)
 		efail("unbox not supported here")
+	}
+	if strings.HasPrefix(e.Name, "dec_") || strings.HasPrefix(e.Name, "decOK_") {
+		isOK := strings.HasPrefix(e.Name, "decOK_")
+		tname := strings.TrimPrefix(strings.TrimPrefix(e.Name, "decOK_"), "dec_")
+		ty, err := c.eng.resolveType(tname)
+		if err != nil {
+			efail("%v", err)
+		}
+		a := x.eval(e.Args[0])
+		dec, ok := c.jsonDec(ty, a.T)
+		if isOK {
+			return TV{ok, tyBool}
+		}
+		return TV{dec, ty}
 	}
 	// boxed payload accessors: isT_<Type>(any), asT_<Type>(any)
 	if strings.HasPrefix(e.Name, "is_") || strings.HasPrefix(e.Name, "as_") {
@@ -523,3 +592,44 @@ func (x *EvalCtx) evalQuant(e *Expr) TV {
 }
 
 var _ = ssa.NaiveForm
+
+// evalFold expands foldl8(f, s, init, extra...) = f(s[7], extra..., ... f(s[0], extra..., init)) over the
+// first min(len(s), 8) elements of s. f is a spec function f(elem, extra..., acc).
+func (x *EvalCtx) evalFold(e *Expr) TV {
+	c := x.c
+	if len(e.Args) < 3 || e.Args[0].Op != "ident" {
+		efail("foldl8(f, s, init, extra...)")
+	}
+	fname := e.Args[0].Name
+	s := x.eval(e.Args[1])
+	acc := x.eval(e.Args[2])
+	sl, ok := s.Ty.Underlying().(*types.Slice)
+	if !ok {
+		efail("foldl8 over non-slice")
+	}
+	heap, es := c.elemHeap(sl.Elem())
+	var extra []TV
+	for _, a := range e.Args[3:] {
+		extra = append(extra, x.eval(a))
+	}
+	for k := 0; k < 8; k++ {
+		vars := map[string]TV{"fold_elem": {c.sliceElem(x.st, heap, es, s.T, IntLit(int64(k))), sl.Elem()}, "fold_acc": acc}
+		args := []*Expr{{Op: "ident", Name: "fold_elem"}}
+		for i, ev := range extra {
+			n := fmt.Sprintf("fold_x%d", i)
+			vars[n] = ev
+			args = append(args, &Expr{Op: "ident", Name: n})
+		}
+		args = append(args, &Expr{Op: "ident", Name: "fold_acc"})
+		n := x.with(vars)
+		step := n.eval(&Expr{Op: "call", Name: fname, Args: args})
+		next := Ite(Lt(IntLit(int64(k)), slLen(s.T)), step.T, acc.T)
+		if !strings.Contains(next.S, "!q") {
+			sym := c.fresh("fold", next.Sort)
+			c.assert(Eq(sym, next))
+			next = sym
+		}
+		acc = TV{next, acc.Ty}
+	}
+	return acc
+}
